@@ -24,6 +24,7 @@ import (
 )
 
 type ScenInit struct {
+	Bare    bool            `json:"bare"`
 	Sid     int             `json:"sid"`
 	R       []int           `json:"r"`
 	H       int             `json:"h"`
@@ -32,6 +33,7 @@ type ScenInit struct {
 	Cells   [][2]int        `json:"cells"`
 	IOCells [][2]int        `json:"iocells"`
 	Pend    []int           `json:"pend"`
+	Img     []int           `json:"img"`
 }
 
 type Scenario struct {
@@ -67,9 +69,9 @@ func twinDiff(a, b *Machine) string {
 func toInt(v interface{}) int { return int(v.(float64)) }
 
 func (si *ScenInit) Spec() *InitSpec {
-	is := &InitSpec{Sid: si.Sid, Halt: si.H != 0, Cells: dedupe(si.Cells), IOCells: si.IOCells, Pend: si.Pend}
+	is := &InitSpec{Bare: si.Bare, Sid: si.Sid, Halt: si.H != 0, Cells: dedupe(si.Cells), IOCells: si.IOCells, Pend: si.Pend}
 	copy(is.R[:], si.R)
-	is.Dev = DevDesc{Kind: si.Dev[0].(string), Seed: toInt(si.Dev[1]), Val: toInt(si.Dev[2]), Len: toInt(si.Dev[3])}
+	is.Dev = DevDesc{Kind: si.Dev[0].(string), Seed: toInt(si.Dev[1]), Val: toInt(si.Dev[2]), Len: toInt(si.Dev[3]), Img: si.Img}
 	is.IO = IODesc{Kind: si.IO[0].(string), Seed: toInt(si.IO[1]), Len: toInt(si.IO[2])}
 	if is.Pend == nil {
 		is.Pend = []int{}
@@ -126,6 +128,39 @@ func (m *Machine) Rebuild() {
 	cpu.RETNHandler = retnH{m.H}
 	cpu.RETIHandler = retiH{m.H}
 	m.CPU = cpu
+}
+
+// SwapMemory attaches a NEW recording memory holding a copy of the contents to the SAME CPU
+// value (what a bank switch or the insertion of a tracing wrapper does). The old recorder is
+// kept so that accesses still reaching it are noticed (they show up as missing accesses).
+func (m *Machine) SwapMemory() {
+	var inner z80.Memory
+	switch src := m.Mem.Inner.(type) {
+	case *LazyMem:
+		n := &LazyMem{seed: src.seed, val: src.val, ov: map[uint16]uint8{}}
+		for k, v := range src.ov {
+			n.ov[k] = v
+		}
+		inner = n
+	case z80.MapMemory:
+		inner = src.Clone()
+	case z80.DumbMemory:
+		n := make(z80.DumbMemory, len(src))
+		copy(n, src)
+		inner = n
+	case *FlatMem:
+		n := &FlatMem{}
+		n.d = src.d
+		inner = n
+	default:
+		return
+	}
+	m.Mem = &RecMem{Inner: inner, Acc: &m.Acc}
+	if m.Bare {
+		m.CPU.Memory = inner
+	} else {
+		m.CPU.Memory = m.Mem
+	}
 }
 
 func playScenario(sc *Scenario, w *bufio.Writer) {
@@ -223,6 +258,8 @@ func playScenario(sc *Scenario, w *bufio.Writer) {
 			m.EmitCPM(w, string(op[1]), sp0)
 		case "w":
 			m.WholeAndEmit(w)
+		case "swapmem":
+			m.SwapMemory()
 		case "snap":
 			m.Rebuild()
 		default:
